@@ -569,8 +569,9 @@ def rules(repo, tier):
     from ..optional import rule_optional
     from ..mode import mode_rules
     from ..callsig import rule_callsig
+    from ..docsig import rule_docsig
     return list(_rules_core(repo, tier)) + [rule_memo(repo, 'C07.MEMO', 'history independence: nothing computed from the contents of a tensor argument is kept '
                                                       'under the identity, address or version of that tensor, in module-level storage, or published from a generator '
                                                       'before it is complete - a later call with the same object and other contents must not be answered from it',
                                                       ['pypose.optim.optimizer', 'pypose.optim.solver', 'pypose.optim.corrector', 'pypose.optim.functional'], floor=3),
-            rule_optional(repo, 'C07.OPT', ['pypose.optim.optimizer', 'pypose.optim.solver', 'pypose.optim.corrector', 'pypose.optim.functional'])] + mode_rules(repo, 'C07', ['pypose.optim.optimizer', 'pypose.optim.solver', 'pypose.optim.corrector', 'pypose.optim.functional']) + [rule_callsig(repo, 'C07.SIG', ['pypose.optim.optimizer', 'pypose.optim.solver', 'pypose.optim.corrector', 'pypose.optim.functional'])]
+            rule_optional(repo, 'C07.OPT', ['pypose.optim.optimizer', 'pypose.optim.solver', 'pypose.optim.corrector', 'pypose.optim.functional'])] + mode_rules(repo, 'C07', ['pypose.optim.optimizer', 'pypose.optim.solver', 'pypose.optim.corrector', 'pypose.optim.functional']) + [rule_callsig(repo, 'C07.SIG', ['pypose.optim.optimizer', 'pypose.optim.solver', 'pypose.optim.corrector', 'pypose.optim.functional']), rule_docsig(repo, 'C07.DOC', ['pypose.optim.optimizer', 'pypose.optim.solver', 'pypose.optim.corrector', 'pypose.optim.functional'])]
